@@ -195,16 +195,19 @@ theorem ns_step (e : Expr) (c : ICtx) (D : Env) : NS (step cfg ev e c D) := by
     split <;> ns_basic
   | dot =>
     simp only [step]
-    apply NS.bnd (NS.flag _ rfl); intro _
-    split <;> ns_basic
+    split
+    · exact NS.ret _
+    · exact NS.thr _
   | posE =>
     simp only [step]
-    apply NS.bnd (NS.flag _ rfl); intro _
-    split <;> ns_basic
+    split
+    · exact NS.ret _
+    · exact NS.thr _
   | lastE =>
     simp only [step]
-    apply NS.bnd (NS.flag _ rfl); intro _
-    split <;> ns_basic
+    split
+    · exact NS.ret _
+    · exact NS.thr _
   | add a b => exact ns_evArith ev hev _ a b c D
   | sub a b => exact ns_evArith ev hev _ a b c D
   | mul a b => exact ns_evArith ev hev _ a b c D
